@@ -248,13 +248,15 @@ func runInBubble(sc *Scenario, res *ImplRun) {
 		res.Sids[idx] = strconv.FormatUint(uint64(c.sid), 10)
 	}
 	// shut down: everything must drain or the bubble reports the leak
-	rt.Close()
+	// (clients first: Close with calls and call timers pending is C06's subject)
 	for _, c := range run.clients {
 		if !c.dropped && !isClosed(c) {
 			c.dropped = true
 			c.cli.Close()
 		}
 	}
+	synctest.Wait()
+	rt.Close()
 	synctest.Wait()
 }
 
